@@ -60,13 +60,8 @@ def classify_common(rec):
         if "syntax error" in msg and bare_offset(sql) and rec["target"] == "sql.generic" \
                 and any(s.kind == "take" and s.info.get("rng", (None, 0))[1] is None for s in rec["program"].steps):
             return "oracle-generic-offset"     # generic SQL may use OFFSET without LIMIT; SQLite cannot run it (F27 is repaired for sql.sqlite)
-    # F29 (panic `name of this column has not been to be set`, gen_expr.rs) is FIXED (456bdcd, c83467e): a panic is not excused --
-    # except the one shape that fix 21fe768 re-opened (F47): a sorted take in front of a distinct, in a SELECT that is not the main query
-    if v == "panic":
-        pn = (rec.get("compile") or {}).get("panic", {})
-        if "name of this column has not been to be set" in pn.get("msg", "") and "gen_expr.rs" in pn.get("loc", "") \
-                and take_before_distinct(rec["program"]) and "sort" in kinds:
-            return "F47-sorted-take-distinct-in-cte-panics"
+    # F29 (panic `name of this column has not been to be set`, gen_expr.rs) is FIXED (456bdcd, c83467e), and so is its recurrence
+    # F47 (21fe768 -> d060422): a panic is never excused
     if v == "sql-err" and re.search(r"no such column: _expr_\d+", str(rec.get("sqlite"))) and re.search(r" AS _expr_\d+", sql):
         return "F24-dangling-generated-alias"
     if v == "sql-err" and rec["program"].meta.get("let_at") and re.search(r"no such column: x\d+", str(rec.get("sqlite"))) and re.search(r"p0 AS \(SELECT \*", sql):
@@ -120,21 +115,15 @@ def directed_known(rng=None):
     def sel(names):
         return S("select", "select {%s}" % ", ".join(names), "TSelect [%s]" % "; ".join("(None, %s)" % col(c) for c in names), final=True)
     out = []
-    # F19: a take in front of a distinct shares its SELECT (`SELECT DISTINCT a FROM t LIMIT 3`: DISTINCT is evaluated first)
+    # F19: a take in front of a distinct shares its SELECT (`SELECT DISTINCT a FROM p0 LIMIT 3`: DISTINCT is evaluated first, and the
+    # ORDER BY is gone).  Since d060422 only a take WITHOUT a sort of its own does; its rows are determined when the order comes
+    # from a let-bound table
     out.append(("F19-take-then-distinct", P.Program([
-        S("select", "select {a}", "TSelect [(None, %s)]" % col("a")),
-        S("sort", "sort {a}", "TSort [(false, %s)]" % col("a"), keys=[(False, ("col", None, "a"))]),
-        S("take", "take 3", "TTake None (Some (3))", rng=(None, 3)),
-        S("distinct", "group {a} (take 1)", "TDistinct", nkeys=1)], False, ["a"]),
-        {"t": [[1, 1, 0, 0, 0], [2, 1, 0, 0, 0], [3, 1, 0, 0, 0], [4, 2, 0, 0, 0], [5, 3, 0, 0, 0]], "u": [[1, 0, 0, 0]]}))
-    # F47 (regression of 21fe768): sorted take | distinct inside a let-bound relation: the ORDER BY in front of the LIMIT names a
-    # column the SELECT DISTINCT does not select -- panic
-    out.append(("F47-sorted-take-distinct-in-cte-panics", P.Program([
         S("sort", "sort {id}", "TSort [(false, %s)]" % col("id"), keys=[(False, ("col", None, "id"))]),
-        S("take", "take 2", "TTake None (Some (2))", rng=(None, 2)),
-        S("select", "select {a, b}", "TSelect [(None, %s); (None, %s)]" % (col("a"), col("b"))),
-        S("distinct", "group {a, b} (take 1)", "TDistinct", nkeys=2),
-        sel(["a", "b"])], False, ["a", "b"], {"let_at": 4})))
+        S("select", "select {a}", "TSelect [(None, %s)]" % col("a")),
+        S("take", "take 3", "TTake None (Some (3))", rng=(None, 3)),
+        S("distinct", "group {a} (take 1)", "TDistinct", nkeys=1)], False, ["a"], {"let_at": 1}),
+        {"t": [[1, 1, 0, 0, 0], [2, 1, 0, 0, 0], [3, 1, 0, 0, 0], [4, 2, 0, 0, 0], [5, 3, 0, 0, 0]], "u": [[1, 0, 0, 0]]}))
     # F32: a group key defined as an integer literal
     out.append(("F32-group-by-constant", P.Program([
         S("derive", "derive {k9 = 2}", "TDerive [(Some %d%%N, ELit (VInt 2))]" % n("k9")),
@@ -293,6 +282,21 @@ def directed_fixed():
           "TGroupAgg [%d%%N] [(Some %d%%N, ASum, %s)]" % (n("a"), n("x908"), col("c")), by=["a"],
           flat="PGroup 1 [PSort [false; false]; PAgg; PTake]"),
         sel(["a", "x908"])], False, ["a", "x908"])))
+    # d060422: a take that carries a sort no longer shares the SELECT of a following distinct
+    out.append(("F19-sorted/d060422", P.Program([
+        S("select", "select {a}", "TSelect [(None, %s)]" % col("a")),
+        S("sort", "sort {a}", "TSort [(false, %s)]" % col("a"), keys=[(False, ("col", None, "a"))]),
+        S("take", "take 3", "TTake None (Some (3))", rng=(None, 3)),
+        S("distinct", "group {a} (take 1)", "TDistinct", nkeys=1)], False, ["a"]),
+        {"t": [[1, 1, 0, 0, 0], [2, 1, 0, 0, 0], [3, 1, 0, 0, 0], [4, 2, 0, 0, 0], [5, 3, 0, 0, 0]], "u": [[1, 0, 0, 0]]}))
+    # F47 (regression of 21fe768): sorted take | distinct inside a let-bound relation: the ORDER BY in front of the LIMIT names a
+    # column the SELECT DISTINCT does not select -- panic
+    out.append(("F47/d060422", P.Program([
+        S("sort", "sort {id}", "TSort [(false, %s)]" % col("id"), keys=[(False, ("col", None, "id"))]),
+        S("take", "take 2", "TTake None (Some (2))", rng=(None, 2)),
+        S("select", "select {a, b}", "TSelect [(None, %s); (None, %s)]" % (col("a"), col("b"))),
+        S("distinct", "group {a, b} (take 1)", "TDistinct", nkeys=2),
+        sel(["a", "b"])], False, ["a", "b"], {"let_at": 4})))
     # shapes the independently seeded changes C01/4 and C01/5 need (both right on HEAD):
     # a windowed derive behind a distinct, used by a filter and then dropped (it must not be evaluated inside the SELECT DISTINCT)
     out.append(("distinct-then-window", P.Program([
